@@ -177,9 +177,125 @@ def check_c19(prop, tier, seed, sd, t0):
     return rc
 
 
-CHECKS = {'C13': check_c13, 'C19': check_c19}
+# --------------------------------------------------------------------------
+# probe-based checks: a Go probe runs the real engine on generated inputs and logs
+# (input, real result); TLC evaluates the specification's value for every line
+
+def probe_check(prop, tier, seed, sd, t0, probe_pkg, mc, trace_module, trace_cfg, extra_modules, prefix, rule, assumptions, unit='ev":"q"', extra_cov=None):
+    mcs = []
+    for name, module, cfg, timeout in mc:
+        r = vlib.model_check(sd, name, module, cfg, timeout)
+        log('model checked %s: %d states' % (cfg, r['states']))
+        mcs.append(r)
+    probe = go_build(sd, probe_pkg, 'probe')
+    tf = os.path.join(sd, 'probe.ndjson')
+    p = subprocess.run(['timeout', '3000', probe, '-out', tf, '-tier', tier, '-seed', str(seed)], stdout=subprocess.PIPE, stderr=subprocess.STDOUT, text=True)
+    if p.returncode != 0:
+        out = p.stdout
+        tail = out[:3000] + '\n...\n' + out[-3000:]
+        if 'github.com/blugelabs/bluge' in out and ('panic' in out or 'fatal error' in out) and 'harness:' not in out:
+            d = save_simple_replay(prop, seed, {'trace.ndjson': tf}, dict(property=prop, note='the probe died inside the code under test', log=tail))
+            log('VIOLATION property=%s replay=%s' % (prop, d))
+            log('  the real engine panicked on a generated input')
+            vlib.write_evidence(prop, tier, seed, 'model_checking', dict(states=max(1, sum(m['states'] for m in mcs)), transitions=max(1, sum(m['transitions'] for m in mcs)),
+                                traces_validated_against_impl=0, samples=[dict(note='probe died', log=tail[-800:])], evaluations=1, distinct_nontrivial=2), assumptions, time.time() - t0, 1)
+            return 1
+        raise Inconclusive('probe %s failed: %s' % (probe_pkg, tail))
+    # split into chunks at corpus boundaries and validate in parallel
+    lines = open(tf).read().splitlines()
+    chunks, cur = [], []
+    for l in lines:
+        if ('"ev":"corpus"' in l or '"ev":"reset"' in l) and len(cur) >= 4000:
+            chunks.append(cur)
+            cur = []
+        cur.append(l)
+    if cur:
+        chunks.append(cur)
+    import concurrent.futures as cf
+    results = []
+
+    def one(i):
+        cf_ = os.path.join(sd, 'chunk-%d.ndjson' % i)
+        open(cf_, 'w').write('\n'.join(chunks[i]) + '\n')
+        return run_trace_spec(sd, '%s-%d' % (prop, i), trace_module, trace_cfg, cf_, extra_modules=extra_modules, timeout=2400)
+    with cf.ThreadPoolExecutor(max_workers=12) as ex:
+        results = list(ex.map(one, range(len(chunks))))
+    viols, offset = [], 0
+    states = trans = 0
+    for i, res in enumerate(results):
+        if not res['ok']:
+            raise Inconclusive('%s did not consume chunk %d:\n%s' % (trace_module, i, res['tail']))
+        states += res['states']
+        trans += res['transitions']
+        for c, line, k in res['viols']:
+            viols.append((c, offset + line, k))
+        offset += len(chunks[i])
+    mine = [v for v in viols if v[0].startswith(prefix)]
+    divs = [v for v in viols if v[0].startswith('DIV_')]
+    known, real = [], []
+    for v in mine:
+        k = None
+        for kf in vlib.known_findings():
+            if kf.get('status') == 'known' and kf['property'] == prop and kf['clause'] == v[0]:
+                # a known finding is identified by its clause AND the probe scenario of the line
+                ln = lines[v[1] - 1]
+                if kf.get('scenario') and ('"scn":"%s"' % kf['scenario']) in ln:
+                    k = kf
+        (known if k else real).append((v, k))
+    rc = 0
+    seen = set()
+    for v, k in known:
+        if k['key'] not in seen:
+            seen.add(k['key'])
+            log('KNOWN-FINDING: property=%s %s' % (prop, k['what']))
+    if real:
+        (c, line, k), _ = real[0]
+        j = line - 1
+        while j > 0 and '"ev":"corpus"' not in lines[j] and '"ev":"reset"' not in lines[j]:
+            j -= 1
+        d = os.path.join(VERIF, 'replays', prop, '%d-%s' % (int(time.time()), seed))
+        os.makedirs(d, exist_ok=True)
+        open(os.path.join(d, 'trace.ndjson'), 'w').write(lines[j] + '\n' + lines[line - 1] + '\n')
+        json.dump(dict(property=prop, clause=c, line=line, kind='probe', module=trace_module, cfg=trace_cfg, extra=list(extra_modules)), open(os.path.join(d, 'meta.json'), 'w'), indent=1)
+        log('VIOLATION property=%s replay=%s' % (prop, d))
+        log('  %s at line %d: %s' % (c, line, lines[line - 1][:700]))
+        rc = 1
+    elif divs:
+        raise Inconclusive('specification and harness disagree about the input binding: %s' % divs[:3])
+    n = sum(1 for l in lines if unit in l)
+    distinct = len({l for l in lines if unit in l})
+    cov = dict(states=states + sum(m['states'] for m in mcs), transitions=trans + sum(m['transitions'] for m in mcs), traces_validated_against_impl=n,
+               samples=[json.loads(lines[0])] + [json.loads(l) for l in lines if unit in l][:3], evaluations=n, distinct_nontrivial=distinct,
+               rule=rule, exhaustive=False, model_configs=mcs, lines=len(lines))
+    if extra_cov:
+        cov.update(extra_cov(lines))
+    vlib.write_evidence(prop, tier, seed, 'model_checking', cov, assumptions, time.time() - t0, len(real))
+    log('%s %s: %d real calls validated by TLC (%d lines, %d chunks), %d violations, %d known' % (prop, tier, n, len(lines), len(chunks), len(real), len(known)))
+    return rc
+
+
+def check_c07(prop, tier, seed, sd, t0):
+    return probe_check(prop, tier, seed, sd, t0, './cmd/searchprobe', [('searchmc', 'SearchMC.tla', 'SearchMC.cfg', 600)],
+                       'SearchTrace.tla', 'SearchTrace.cfg', ('Search.tla',), 'C07_',
+                       'real Reader.Search calls (AllMatches and TopN large enough for everything): (a) small scope -- random samples of the 2^15 assignments of 3 terms to 5 documents '
+                       'in 2 segments (split point and one pending deletion varied) x boolean shapes of depth <= 2 over term/match-all/match-none leaves with min-should 0..3; (b) corpora of '
+                       '3..12 documents in 1..4 segments with pending deletions, two text fields (positions), numeric, date and keyword fields, query trees to depth 3 and width 12 over '
+                       'term, match and/or, (multi-)phrase with slop, prefix, wildcard, regexp, fuzzy (distance 0..2, prefix 0..2), term range, numeric range, date range, all, none, bool; '
+                       'TLC evaluates Search!Eval for every logged (corpus, query) and compares with the ids really returned; distinct = distinct logged (query, result) lines',
+                       ['the corpus logged is the corpus indexed (sq.Build)', 'text is analysed by the standard analyzer into the logged tokens (lower-case letters only)',
+                        'geo queries and float/boundary behaviour of numeric encodings are not covered (C10 is not applicable)'],
+                       extra_cov=lambda lines: dict(excluded_query_kinds=['geo distance', 'geo bounding box', 'geo polygon']))
+
+
+CHECKS = {'C13': check_c13, 'C19': check_c19, 'C07': check_c07}
 
 MANIFEST_ENTRIES = {
+    'C07': ('Search.tla gives the documented meaning of every covered query kind as a set of live documents (term, match and/or, phrase and multi-phrase with the slop path rule of '
+            'search_phrase.go, prefix, wildcard, regexp subset, fuzzy = edit distance with transpositions + required prefix, term/numeric/date ranges with open ends, match-all/none, '
+            'boolean nesting with min-should); TLC checks boolean identities of the oracle on all small corpora (SearchMC). Code: the probe indexes generated corpora for real in the '
+            'stated segment layout with pending deletions and runs generated query trees through Reader.Search with two collectors; SearchTrace evaluates Eval for every logged call '
+            'and reports missed / extra / deleted / duplicated documents. Geo queries are excluded.', '6 C07',
+            'TLA+ oracle (Search.tla) evaluated by TLC on every logged real Reader.Search call (SearchTrace) + TLC check of oracle identities', SEQ_NOTE, 'model_checking'),
     'C19': ('TLC: MergePlan.tla -- the contract PlanOK of one Plan call plus the arrive/delete/plan/execute dynamics quantified over EVERY planner that satisfies '
             'the contract and makes progress: at rest the mergeable population is within the (logarithmic) budget, every plan decreases a well-founded measure, '
             'convergence (liveness, thorough tier). Code: the real mergeplan.Plan is called on exhaustive small and random large segment lists and along simulated '
